@@ -87,6 +87,8 @@ def check(ctx):
     ctx.rule("R4", "a pending a>p / e>p sentinel is either resolved by the following pipe or reported; it cannot reach execution", floor=3)
     ctx.rule("R6", "where a pipe takes a stream slot the assignment goes through the public conflict-checking setter on every path (documented exemption: stdout under e>p)", floor=4)
     ctx.rule("R7", "every stage whose output is captured, piped or redirected carries the capture-always marker, whatever per-command overlay it already has (nested commands of an alias stage write into the stage's stream, not the terminal)", floor=2)
+    ctx.rule("R9", "a merge / to-pipe spelling (`2>out`, `o>e`, `a>p` ...) is an operator only as a whole word: the tokenizer's pattern asserts a word end after it, so `cmd 2>out.log`, `cmd 1>err.txt`, `cmd a>perf.log` redirect into the named file", floor=1)
+    ctx.rule("R8", "a redirect target is opened the ordinary blocking way: the descriptor a stage inherits carries no status flags of xonsh's choosing (no custom opener, no O_NONBLOCK / O_NDELAY: on a FIFO or tty the stage would then read EAGAIN or write short)", floor=1)
     ctx.rule("R5", "sibling stage-kind handlers agree on the merge flags (subprocess.STDOUT on stderr, the `2` flag on stdout)", floor=3)
 
     tk = ctx.repo.module(TK)
@@ -447,6 +449,107 @@ def check(ctx):
         raise AnalysisError(f"{SP}:cmds_to_specs: only {n_paths} feasible wiring path(s)")
 
     _capture_marker(ctx)
+    _merge_spelling_boundary(ctx, tk, tf, redir_map)
+    # ---- R8: how redirect targets are opened
+    spm = ctx.repo.module(SP)
+    so = flat(ctx, spm.func("safe_open"), 2)
+    n8 = 0
+    for c in calls_in(so):
+        if getattr(stmt_of(c), "_xv_call_marker", False):
+            continue
+        nm = call_name(c) or ""
+        if nm == "open":
+            n8 += 1
+            op = kwarg(c, "opener")
+            ctx.ob("R8", f"{SP}:safe_open", f"`{short(c, 60)}` uses the interpreter's own opener", op is None or const_value(op, 0) is None, key="safe_open|custom-opener", where=loc(c), detail=None if op is None else f"opener={short(op)}: whatever flags it sets stay on the open file description the stage inherits")
+        elif nm == "os.open":
+            n8 += 1
+            fl = unparse(c.args[1]) if len(c.args) > 1 else ""
+            bad = [f for f in ("O_NONBLOCK", "O_NDELAY") if f in fl]
+            ctx.ob("R8", f"{SP}:safe_open", f"`{short(c, 60)}` sets no non-blocking flag", not bad, key="safe_open|nonblocking-target", where=loc(c), detail=f"{bad}" if bad else None)
+    # the same for any os.open in the module whose flags say non-blocking and whose result can become a stage's stream
+    for q8, f8 in spm.functions():
+        for c in calls_in(f8):
+            if call_name(c) == "os.open" and len(c.args) > 1 and any(f in unparse(c.args[1]) for f in ("O_NONBLOCK", "O_NDELAY")):
+                ctx.ob("R8", f"{SP}:{q8}", f"`{short(c, 60)}` opens something non-blocking in the module that wires the stages' streams", False, key=f"{q8}|nonblocking-open", where=loc(c))
+    if not n8:
+        raise AnchorMissing(f"{SP}:safe_open: the open call")
+
+
+def _merge_spelling_boundary(ctx, tk, tf, redir_map):
+    """The alternation of the two-sided spellings in the tokenizer's IORedirect pattern must be followed by a look-ahead: the
+    regex engine takes the leftmost alternative that matches, and every spelling is a prefix of some file name."""
+    import re._parser as _rp
+    import re._constants as _rc
+
+    def ev(e):
+        """the pattern text of an expression built from string literals, +, f-strings, names of such and group(...)"""
+        if isinstance(e, ast.Constant) and isinstance(e.value, str):
+            return e.value
+        if isinstance(e, ast.BinOp) and isinstance(e.op, ast.Add):
+            return ev(e.left) + ev(e.right)
+        if isinstance(e, ast.JoinedStr):
+            return "".join(v.value if isinstance(v, ast.Constant) else ev(v.value) for v in e.values)
+        if isinstance(e, ast.Name):
+            if e.id in tk.assigns:
+                return ev(tk.assigns[e.id][-1].value)
+            raise NotConstant(e.id)
+        if isinstance(e, ast.Call) and call_name(e) == "group" and not e.keywords:
+            parts = []
+            for a in e.args:
+                if isinstance(a, ast.Starred):
+                    parts += [re.escape(x) if False else x for x in tf.fold(a.value, {})]
+                else:
+                    parts.append(ev(a))
+            return "(" + "|".join(parts) + ")"
+        raise NotConstant(unparse(e)[:40])
+
+    import re
+
+    if "IORedirect" not in tk.assigns:
+        raise AnchorMissing(f"{TK}: IORedirect")
+    try:
+        pat = ev(tk.assigns["IORedirect"][-1].value)
+        tree = _rp.parse(pat)
+    except (NotConstant, re.error, AnalysisError) as e:
+        raise AnalysisError(f"{TK}: IORedirect pattern not foldable ({e})")
+    words = set(redir_map)
+
+    def literal_word(seq):
+        out = ""
+        for op, av in seq:
+            if op is _rc.LITERAL:
+                out += chr(av)
+            else:
+                return None
+        return out
+
+    found = []
+
+    def walk(seq):
+        items = list(seq)
+        for i, (op, av) in enumerate(items):
+            if op is _rc.SUBPATTERN:
+                inner = av[3]
+                sub = list(inner)
+                if len(sub) == 1 and sub[0][0] is _rc.BRANCH:
+                    alts = [literal_word(a) for a in sub[0][1][1]]
+                    if all(a is not None for a in alts) and set(alts) & words and set(alts) <= words | {a for a in alts}:
+                        if set(alts) >= words:
+                            nxt = items[i + 1][0] if i + 1 < len(items) else None
+                            found.append(nxt in (_rc.ASSERT, _rc.ASSERT_NOT))
+                            continue
+                walk(inner)
+            elif op is _rc.BRANCH:
+                for a in av[1]:
+                    walk(a)
+            elif op in (_rc.MAX_REPEAT, _rc.MIN_REPEAT):
+                walk(av[2])
+
+    walk(tree)
+    if not found:
+        raise AnalysisError(f"{TK}: the alternation of the two-sided redirect spellings was not found in the IORedirect pattern")
+    ctx.ob("R9", f"{TK}:IORedirect", f"the alternation of the {len(words)} two-sided spellings is followed by a look-ahead (word end)", all(found), key="tok|merge-spelling-matches-as-prefix", detail=None if all(found) else "without it `2>out.log` is tokenised as the merge `2>out` plus a stray argument `.log`; `a>perf.log` as `a>p` plus `erf.log`")
 
 
 def _capture_marker(ctx):
@@ -524,5 +627,5 @@ META = {
     "check; sibling stage-kind handlers are cross-checked for the merge flags. Actual byte delivery is not decided.",
     "note": "Decides the listed structural clauses, not the behaviour. Oracle table (origin/destination classes, "
     "modes) is written from the property statement and docs. Known finding: ProcProxy._pick_buf ignores the merge flags.",
-    "more": 'Also decided: every stage that is captured, piped or redirected receives the capture-always marker whatever per-command overlay it already has.',
+    "more": 'Also decided: every stage that is captured, piped or redirected receives the capture-always marker whatever per-command overlay it already has. Redirect targets are opened with the interpreter\'s own blocking opener; the two-sided redirect spellings are tokens only as whole words (look-ahead in the tokenizer\'s pattern).',
 }
